@@ -250,7 +250,9 @@ class KEval:
             if p in args:
                 env[p] = args[p]
             elif p in func.defaults:
-                env[p] = self.ev(func.defaults[p], {}, S, func, (), (), depth)
+                dv = self.ev(func.defaults[p], {}, S, func, (), (), depth)
+                # a None default is the "not supplied" sentinel: analyse the parameter symbolically
+                env[p] = Ref(prefix + p) if (isinstance(dv, Const) and dv.v is None) else dv
             elif p in ("self", "cls"):
                 env[p] = Ref(p)
             else:
@@ -296,6 +298,11 @@ class KEval:
         if isinstance(st, ast.If):
             c = self.cond(st.test, env, S, f, guards, loops, depth)
             S.compares.append((c, guards, loops))
+            known = self.const_truth(c)
+            if known is True:
+                return self.block(st.body, env, S, f, guards, loops, depth)
+            if known is False:
+                return self.block(st.orelse, env, S, f, guards, loops, depth)
             e1, e2 = dict(env), dict(env)
             t1 = self.block(st.body, e1, S, f, guards + (c,), loops, depth)
             t2 = self.block(st.orelse, e2, S, f, guards + (c.negate(),), loops, depth)
@@ -438,6 +445,27 @@ class KEval:
         else:
             env.pop("#path", None)
         return False
+
+    def const_truth(self, c: Cond):
+        """truth value of a condition that is a literal constant (default-argument flags such as renormalize=False), else None"""
+        if c.kind == "truth" and isinstance(c.args[0], Const) and isinstance(c.args[0].v, bool):
+            return c.args[0].v
+        if c.kind == "not":
+            t = self.const_truth(c.args[0])
+            return None if t is None else (not t)
+        if c.kind == "and":
+            ts = [self.const_truth(a) for a in c.args]
+            if any(t is False for t in ts):
+                return False
+            if all(t is True for t in ts):
+                return True
+        if c.kind == "or":
+            ts = [self.const_truth(a) for a in c.args]
+            if any(t is True for t in ts):
+                return True
+            if all(t is False for t in ts):
+                return False
+        return None
 
     def length_of(self, seq):
         if isinstance(seq, tuple):
@@ -584,7 +612,9 @@ class KEval:
                         out.append(Poly.fn("slice", lo, hi, stp))
             else:
                 v = self.ev(e, env, S, f, guards, loops, depth)
-                if isinstance(v, Cond):
+                if isinstance(v, Const) and v.v is None:
+                    out.append(Poly.sym("None"))
+                elif isinstance(v, Cond):
                     out.append(Poly.fn("mask", Poly.sym(v.key())))
                 else:
                     s = self.scalar(v)
@@ -727,7 +757,7 @@ class KEval:
                 if base.name == "self" and ("self." + e.attr) in env:
                     return env["self." + e.attr]
                 return Ref(base.name + "." + e.attr, (), False)
-            if isinstance(base, Poly) and e.attr in ("real", "imag"):
+            if isinstance(base, Poly) and e.attr in ("real", "imag", "T"):
                 return Poly.fn(e.attr, base)
             return TOP
         if isinstance(e, ast.Call):
